@@ -1,6 +1,9 @@
 import GB.C05.Witness
 import GB.C05.PipelineProofs
+import GB.C05.Deadlock
 import GB.C05.Deciders
+import GB.C05.Ext
+import GB.Generated.Facts
 /-
   C05 — reflection resolution reproduces the target's contract for any conformant server.
   Property theorems only; helper lemmas live in Proofs.lean, vocabulary in Spec.lean.
@@ -651,3 +654,374 @@ theorem C05_original_send_eof_masks_status :
         (fun s => s.result.map fun r => match r with | .ok _ => 0 | .error e => e.code) = some (some Pipe.codeEOF) := by
   decide
 
+
+
+/-! ## Global deadlock freedom and termination of the pipelined client (Deadlock.lean)
+
+`Label.spontaneous` = what may hit the code out of the blue (`reqSendFault`, `reqSendEOF`, `rcvFault`,
+`streamEnd`); `Label.envLaw` = what the stream owes (`serve`: answer a request that is on the wire;
+`rcvStatus`: once ended, make the pending Recv return the status); every other label is a statement of the
+requester, the receiver or main (execFileDescriptorRequests, then close()). -/
+
+/-- DEADLOCK FREEDOM.  In every reachable state of every interleaving that is not the final `closed`, a move
+    that is not a spontaneous fault is enabled; it is a move of the CODE (requester, receiver, main) except
+    in exactly one situation: the receiver is inside `Recv` for response i, request i is on the wire and
+    the stream has not answered it yet — then the stream's own law (`serve`, or `rcvStatus` once it has
+    ended) is the enabled move.  No state waits for a fault. -/
+theorem C05_pipeline_deadlock_free (closeFixed : Bool) (A : List Answer) (s : Pipe.PState)
+    (hr : LTS.Reachable (Pipe.step closeFixed A) (Pipe.init A.length) s) (hne : s.mpc ≠ .closed) :
+    ∃ l, l.spontaneous = false ∧ (Pipe.step closeFixed A s l).isSome = true ∧
+      (l.envLaw = true → ∃ i, s.vpc = .recv i ∧ s.served ≤ i ∧ i < s.wire) := by
+  have hil := Pipe.linv_reachable closeFixed A s hr
+  refine ⟨Pipe.nextMove closeFixed A.length s, Pipe.nextMove_not_spontaneous _ _ _,
+    Pipe.progress closeFixed A s hil.1 hil.2 hne, fun he => ?_⟩
+  obtain ⟨i, hv, hs⟩ := Pipe.nextMove_envLaw _ _ _ he
+  exact ⟨i, hv, hs, ((C05_pipeline_semaphore closeFixed A s hr).1 i hv).1⟩
+
+/-- The channel operations of the two goroutines never block: the semaphore (capacity n) holds fewer than n
+    tokens whenever the requester is about to push; each goroutine writes its capacity-1 error channel
+    exactly once and finds it empty — also after main has already returned on the other one's error. -/
+theorem C05_pipeline_pushes_never_block (closeFixed : Bool) (A : List Answer) (s : Pipe.PState)
+    (hr : LTS.Reachable (Pipe.step closeFixed A) (Pipe.init A.length) s) :
+    s.sem ≤ A.length ∧ (∀ i, s.rpc = .signal i → s.sem < A.length) ∧
+    (s.rpc ≠ .done → s.sendErr = none) ∧ (s.vpc ≠ .done → s.recvErr = none) := by
+  have hil := Pipe.linv_reachable closeFixed A s hr
+  have h1 := hil.1.tokens
+  have h2 := hil.1.sig_le
+  have h3 := hil.1.wire_le
+  refine ⟨by omega, fun i hs => ?_, hil.2.send_once, hil.2.recv_once⟩
+  have := hil.1.r_signal i hs
+  omega
+
+/-- TERMINATION.  `Pipe.rank` strictly decreases along EVERY step (code, stream, faults), so no fairness
+    assumption is needed: every execution from the initial state has at most 5n+13 steps. -/
+theorem C05_pipeline_rank_decreases (closeFixed : Bool) (A : List Answer) (s s' : Pipe.PState) (l : Pipe.Label)
+    (hr : LTS.Reachable (Pipe.step closeFixed A) (Pipe.init A.length) s)
+    (h : Pipe.step closeFixed A s l = some s') : Pipe.rank A.length s' < Pipe.rank A.length s :=
+  Pipe.rank_step closeFixed A s l s' (Pipe.pinv_reachable closeFixed A s hr) h
+
+theorem C05_pipeline_runs_bounded (closeFixed : Bool) (A : List Answer) (ls : List Pipe.Label) (s : Pipe.PState)
+    (h : LTS.run (Pipe.step closeFixed A) (Pipe.init A.length) ls = some s) : ls.length ≤ 5 * A.length + 13 := by
+  have h1 := Pipe.run_bounded closeFixed A ls _ s (Pipe.pinv_init closeFixed A) h
+  have h2 := Pipe.rank_init_le A.length
+  omega
+
+/-- Every maximal run ends with the function returned and the client closed: a reachable state in which no
+    non-spontaneous move is enabled is `closed`, both goroutines have exited and the result is decided; and
+    from every reachable state some continuation WITHOUT any spontaneous fault gets there. -/
+theorem C05_pipeline_terminates (closeFixed : Bool) (A : List Answer) (s : Pipe.PState)
+    (hr : LTS.Reachable (Pipe.step closeFixed A) (Pipe.init A.length) s) :
+    ((∀ l, l.spontaneous = false → Pipe.step closeFixed A s l = none) →
+      s.mpc = .closed ∧ s.rpc = .done ∧ s.vpc = .done ∧ s.result.isSome = true) ∧
+    (∃ ls s', LTS.run (Pipe.step closeFixed A) s ls = some s' ∧ s'.mpc = .closed ∧
+      (∀ l ∈ ls, l.spontaneous = false) ∧ ls.length ≤ Pipe.rank A.length s) := by
+  have hil := Pipe.linv_reachable closeFixed A s hr
+  refine ⟨fun hstuck => ?_, ?_⟩
+  · have hc : s.mpc = .closed := by
+      by_cases hc : s.mpc = .closed
+      · exact hc
+      · have hp := Pipe.progress closeFixed A s hil.1 hil.2 hc
+        rw [hstuck _ (Pipe.nextMove_not_spontaneous _ _ _)] at hp
+        simp at hp
+    have hj := hil.1.joined (by rw [hc]; simp) (by intro k; rw [hc]; simp)
+    exact ⟨hc, hj.1, hj.2, hil.2.decided (by intro k; rw [hc]; simp)⟩
+  · obtain ⟨ls, s', hrun, hcl, hall⟩ := Pipe.reaches_closed closeFixed A _ s (Nat.le_refl _) hil.1 hil.2
+    have hb := Pipe.run_bounded closeFixed A ls s s' hil.1 hrun
+    exact ⟨ls, s', hrun, hcl, hall, by omega⟩
+
+/-- non-vacuity of the above: the scheduler `nextMove` drives a 2-request batch from the initial state to
+    `closed` in 19 moves, none of them a fault (kernel evaluation) -/
+theorem C05_pipeline_nextMove_witness :
+    let A : List Answer := [.files [], .files []]
+    let go := fun (s : Pipe.PState) => (Pipe.step true A s (Pipe.nextMove true 2 s)).getD s
+    (Nat.repeat go 19 (Pipe.init 2)).mpc = .closed ∧ (Nat.repeat go 18 (Pipe.init 2)).mpc ≠ .closed := by
+  decide
+
+
+/-! ## Regenerated facts (extract/c05.go → GB.Generated) tied to the model by `decide`
+
+A change of the version order, of a default, of a loop bound, a dropped insertion into a de-dup set, a changed
+channel capacity or a reordered defer makes the corresponding theorem fail to build (check exits 1). -/
+
+set_option maxRecDepth 100000 in
+/-- `reflectionMethods` (the initial `methodPriority`, model `initState.priority = [.v1, .v1alpha]`) lists v1 first, then v1alpha, and the two import aliases are bound to the v1 / v1alpha packages -/
+theorem C05_facts_versions : GB.Generated.c05ReflectionMethods =
+    ["reflectionpb.ServerReflection_ServerReflectionInfo_FullMethodName",
+     "reflectionalphapb.ServerReflection_ServerReflectionInfo_FullMethodName",
+     "reflectionpb=google.golang.org/grpc/reflection/grpc_reflection_v1",
+     "reflectionalphapb=google.golang.org/grpc/reflection/grpc_reflection_v1alpha"] := by decide
+
+set_option maxRecDepth 100000 in
+/-- `withDefaults`: RecursionLimit 0 ⇒ 100, negative ⇒ 0 (model `effLimit`); ReqTimeout 0 ⇒ 10 s, below 1 ms ⇒ 1 ms -/
+theorem C05_facts_defaults : GB.Generated.c05Defaults =
+    ["if opts.ReqTimeout == 0",
+     "  opts.ReqTimeout = 10 * time.Second",
+     "else if opts.ReqTimeout < time.Millisecond",
+     "  opts.ReqTimeout = time.Millisecond",
+     "if opts.RecursionLimit == 0",
+     "  opts.RecursionLimit = 100",
+     "else if opts.RecursionLimit < 0",
+     "  opts.RecursionLimit = 0"] := by decide
+
+set_option maxRecDepth 100000 in
+/-- `NewResolverBuilder` applies the defaults and then appends the administrative prefix "grpc." (model `mkCfg`) -/
+theorem C05_facts_builder : GB.Generated.c05Builder =
+    ["opts = opts.withDefaults()",
+     "opts.IgnorePrefixes = append(opts.IgnorePrefixes, \"grpc.\")",
+     "return &ResolverBuilder{ opts: opts, pool: pool, logger: opts.Logger.WithComponent(\"grpcbridge.reflection\"), }"] := by decide
+
+set_option maxRecDepth 100000 in
+/-- the de-duplication loop of `Resolver.fileDescriptors`: unmarshal, skip a name already in `processed`, INSERT the name (the D5 fix), append (model `dedupFiles`) -/
+theorem C05_facts_dedup_loop : GB.Generated.c05FileDedupLoop =
+    ["for _, bytes := range protoBytes",
+     "  fd := new(descriptorpb.FileDescriptorProto)",
+     "  if err := proto.Unmarshal(bytes, fd); err != nil",
+     "    return <error>",
+     "  if _, ok := processed[fd.GetName()]; ok",
+     "    continue",
+     "  processed[fd.GetName()] = struct{}{}",
+     "  set.File = append(set.File, fd)",
+     "  bundle = append(bundle, namedProtoBundle{name: fd.GetName(), proto: bytes})"] := by decide
+
+set_option maxRecDepth 100000 in
+/-- the filter loop of `Resolver.listServiceNames`: invalid ⇒ skip, seen ⇒ skip, insert, ignore prefixes, append (model `listFilter`) -/
+theorem C05_facts_list_loop : GB.Generated.c05ListLoop =
+    ["for _, s := range services",
+     "  fullName := protoreflect.FullName(s)",
+     "  if !fullName.IsValid()",
+     "    continue",
+     "  else if _, ok := processed[fullName]; ok",
+     "    continue",
+     "  processed[fullName] = struct{}{}",
+     "  index := slices.IndexFunc(r.opts.IgnorePrefixes, func(prefix string) bool { return strings.HasPrefix(string(fullName), prefix) })",
+     "  if index == -1",
+     "    filteredNames = append(filteredNames, fullName)"] := by decide
+
+set_option maxRecDepth 100000 in
+/-- the loop of `Resolver.retrieveDependencies`: bound `i < RecursionLimit && len(missing) > 0`, only files not yet present are appended, update/shrink, still missing ⇒ error, grow (model `bfsLoop`) -/
+theorem C05_facts_bfs_loop : GB.Generated.c05BfsLoop =
+    ["for i := 0; i < r.opts.RecursionLimit && len(missing) > 0; i++",
+     "  missingList = slices.Grow(missingList, len(missing))[:0]",
+     "  for dep := range missing",
+     "    missingList = append(missingList, dep)",
+     "  depDescriptors, depBundles, err := r.fileDescriptorsByFilenames(c, missingList)",
+     "  if err != nil",
+     "    return err",
+     "  for i, fd := range depDescriptors.File",
+     "    if _, ok := present[fd.GetName()]; !ok",
+     "      descriptors.File = append(descriptors.File, fd)",
+     "      *bundles = append(*bundles, depBundles[i])",
+     "  updatePresentDescriptorSet(depDescriptors, present)",
+     "  shrinkMissingDescriptorSet(depDescriptors, missing)",
+     "  if len(missing) > 0",
+     "    return <error>",
+     "  growMissingDescriptorSet(depDescriptors, present, missing)"] := by decide
+
+set_option maxRecDepth 100000 in
+/-- `Resolver.resolve`: versions in `methodPriority` order, Unimplemented ⇒ next, nil error ⇒ swap with position 0, anything else returned (model `resolveFrom`, `swapFront`) -/
+theorem C05_facts_resolve : GB.Generated.c05ResolveBody =
+    ["var errs []error",
+     "for i, method := range r.methodPriority",
+     "  state, err := r.resolveWithMethod(method)",
+     "  if status.Code(err) == codes.Unimplemented",
+     "    errs = append(errs, err)",
+     "    continue",
+     "  else if err == nil",
+     "    r.methodPriority[0], r.methodPriority[i] = r.methodPriority[i], r.methodPriority[0]",
+     "  return state, err",
+     "return <error>"] := by decide
+
+set_option maxRecDepth 100000 in
+/-- `execFileDescriptorRequests`: n = 0 returns at once; semaphore of capacity n, two error channels of capacity 1; `defer wg.Wait()` before `defer cancel()`; both goroutines write their channel once; `for range 2` select (LTS `Pipe.step`) -/
+theorem C05_facts_pipe_main : GB.Generated.c05PipeMain =
+    ["if len(requests) == 0",
+     "  return [][]byte{}, nil",
+     "semaphore := make(chan struct{}, len(requests))",
+     "sendErr := make(chan error, 1)",
+     "recvErr := make(chan error, 1)",
+     "var wg sync.WaitGroup",
+     "wg.Add(2)",
+     "defer wg.Wait()",
+     "ctx, cancel := context.WithCancel(context.Background())",
+     "defer cancel()",
+     "go func",
+     "  defer wg.Done()",
+     "  sendErr <- c.fileDescriptorsRequester(ctx, semaphore, requests, name)",
+     "var res [][]byte",
+     "go func",
+     "  defer wg.Done()",
+     "  recvd, err := c.fileDescriptorsReceiver(ctx, semaphore, requests, name)",
+     "  res = recvd",
+     "  recvErr <- err",
+     "for range 2",
+     "  var err error",
+     "  select",
+     "    case err = <-sendErr",
+     "    case err = <-recvErr",
+     "  if err != nil",
+     "    return nil, err",
+     "return res, nil"] := by decide
+
+set_option maxRecDepth 100000 in
+/-- requester: Send, error ⇒ return, else push a token (labels reqSend / reqSendFault / reqSignal / reqFinish) -/
+theorem C05_facts_pipe_requester : GB.Generated.c05PipeRequester =
+    ["for i, req := range requests",
+     "  if err := c.sendTimeout(ctx, req); err != nil",
+     "    return <error>",
+     "  semaphore <- struct{}{}",
+     "return nil"] := by decide
+
+set_option maxRecDepth 100000 in
+/-- receiver: select on token / ctx.Done, Recv, wrong type ⇒ error, append (labels rcvTake / rcvCancelled / rcvRecv / rcvFault) -/
+theorem C05_facts_pipe_receiver : GB.Generated.c05PipeReceiver =
+    ["for i := range requests",
+     "  select",
+     "    case <-semaphore",
+     "    case <-ctx.Done()",
+     "      return nil, ctx.Err()",
+     "  if err := c.recvTimeout(ctx, resp); err != nil",
+     "    return <error>",
+     "  if _, ok := resp.MessageResponse.(*reflectionpb.ServerReflectionResponse_FileDescriptorResponse); !ok",
+     "    return <error>",
+     "  fileDescriptors = append(fileDescriptors, resp.GetFileDescriptorResponse().GetFileDescriptorProto()...)"] := by decide
+
+set_option maxRecDepth 100000 in
+/-- `client.close`: CloseSend, graceful Recv only if no call failed, Close (labels closeSend / closeRecvCall / closeSkipRecv / closeClose) -/
+theorem C05_facts_pipe_close : GB.Generated.c05PipeClose =
+    ["c.stream.CloseSend()",
+     "if !c.failed.Load()",
+     "  ctx, cancel := context.WithTimeout(context.Background(), c.timeout)",
+     "  defer cancel()",
+     "  _ = c.stream.Recv(ctx, new(reflectionpb.ServerReflectionResponse))",
+     "c.stream.Close()"] := by decide
+
+set_option maxRecDepth 100000 in
+/-- every Send/Recv/Stream of the client runs under `context.WithTimeout(…, timeout)`, the per-request ones derived from the batch context; the resolver passes `ReqTimeout` -/
+theorem C05_facts_timeouts : GB.Generated.c05Timeouts =
+    ["connectClient: context.WithTimeout(context.Background(), timeout)",
+     "close: context.WithTimeout(context.Background(), c.timeout)",
+     "listServiceNames: context.WithTimeout(context.Background(), c.timeout)",
+     "sendTimeout: context.WithTimeout(ctx, c.timeout)",
+     "recvTimeout: context.WithTimeout(ctx, c.timeout)",
+     "resolveWithMethod: connectClient(r.opts.ReqTimeout, cc, method)"] := by decide
+
+/-- the model's de-duplication is chosen BY the regenerated loop: with the insertion into `processed` between the
+    membership test and the append it is `dedupFiles`; without it (code before the D5 fix) it would be
+    `dedupFilesBuggy`, for which `C05_unfixed_dedup_fails` shows the property fails -/
+def C05.dedupOfFacts (loop : List String) : List Name → List DFile → List DFile :=
+  match loop.dropWhile (· ≠ "  if _, ok := processed[fd.GetName()]; ok") with
+  | _ :: "    continue" :: "  processed[fd.GetName()] = struct{}{}" :: "  set.File = append(set.File, fd)" :: _ => dedupFiles
+  | _ => dedupFilesBuggy
+
+theorem C05_facts_dedup_is_fixed : C05.dedupOfFacts GB.Generated.c05FileDedupLoop = dedupFiles := by
+  simp [C05.dedupOfFacts, GB.Generated.c05FileDedupLoop, List.dropWhile]
+
+/-- the numbers of the model are the numbers of the code -/
+theorem C05_facts_limit_default :
+    "  opts.RecursionLimit = 100" ∈ GB.Generated.c05Defaults ∧ effLimit 0 = 100 ∧ effLimit (-5) = 0 ∧ effLimit 7 = 7 ∧
+    (mkCfg 0 false []).ignore = [[103, 114, 112, 99, 46]] := by
+  refine ⟨by decide, by decide, by decide, by decide, ?_⟩
+  decide
+
+
+/-! ## protodesc.NewFiles beyond the base contract (Ext.lean) and nested additional_bindings
+
+`newFilesX` is validated against the real `reflection.parseFileDescriptors` by op `nf` on descriptor sets built
+at run time (public/weak imports, syntax/editions, symbol and package conflicts, repeated/unused imports,
+`required` in proto3). -/
+
+/-- Whatever `newFilesX` accepts is delivered as it is — the registry is exactly the descriptor set — and
+    satisfies every clause of the extended contract. -/
+theorem C05_newFilesX_sound (xs : List XFile) (reg : List DFile) (h : newFilesX xs = .ok reg) :
+    reg = xs.map (·.file) ∧ nodupB (xNames xs) = true ∧ xs.all syntaxOkB = true ∧ xs.all importsOkB = true ∧
+    closedXB xs = true ∧ acyclicB (presentDeps xs) = true ∧ nodupB (allSymbols xs) = true ∧
+    pkgConflictB xs = false ∧ typesResolveXB xs = true ∧ proto3RequiredB xs = false := by
+  unfold newFilesX at h
+  repeat' split at h
+  all_goals (try (simp at h))
+  simp_all
+
+/-- … and conversely a set satisfying the clauses is accepted: the clauses ARE the contract. -/
+theorem C05_newFilesX_complete (xs : List XFile)
+    (h1 : nodupB (xNames xs) = true) (h2 : xs.all syntaxOkB = true) (h3 : xs.all importsOkB = true)
+    (h4 : closedXB xs = true) (h5 : acyclicB (presentDeps xs) = true) (h6 : nodupB (allSymbols xs) = true)
+    (h7 : pkgConflictB xs = false) (h8 : typesResolveXB xs = true) (h9 : proto3RequiredB xs = false) :
+    newFilesX xs = .ok (xs.map (·.file)) := by
+  unfold newFilesX
+  simp [h1, h2, h3, h4, h5, h6, h7, h8, h9]
+
+/-- The delivered description of an accepted extended set: the registry is the set, and every wanted service
+    is `parseTarget` of it — methods, types, streaming kinds and bindings copied exactly (`C05_parse_exact`,
+    `C05_binding_exact` apply to it unchanged). -/
+theorem C05_parseX_exact (xs : List XFile) (wanted : List Name) (t : Target)
+    (h : parseFileDescriptorsX xs wanted = .ok t) :
+    t.files = xs.map (·.file) ∧ t.services = parseTarget (xs.map (·.file)) wanted ∧
+    t.services.map (·.name) = wanted := by
+  unfold parseFileDescriptorsX at h
+  split at h
+  · simp at h
+  · rename_i reg hreg
+    have := (C05_newFilesX_sound xs reg hreg).1
+    simp at h
+    subst h; subst this
+    refine ⟨rfl, rfl, ?_⟩
+    simp only [parseTarget, List.map_map]
+    conv => rhs; rw [← List.map_id wanted]
+    apply List.map_congr_left
+    intro n _
+    simp only [Function.comp]
+    split <;> rfl
+
+/-- NESTED additional_bindings (illegal per http.proto, unchecked by protobuf): `parseMethodDescriptor` reads
+    `AdditionalBindings` one level deep and `parseBinding` never looks at a binding's own list, so the nested
+    rules are dropped — not flattened into the method, not an error; the delivered bindings are the primary
+    rule and the first-level additional ones, in order, each copied exactly. -/
+theorem C05_nested_bindings_dropped (svc : Name) (m : DMethod) (h : XHttp) :
+    (parseMethod svc { m with http := some h.flatten }).bindings =
+      parseBinding h.primary :: h.additional.map (fun a => parseBinding a.1) ∧
+    (parseMethod svc { m with http := some h.flatten }).bindings.length = 1 + h.additional.length := by
+  simp [parseMethod, XHttp.flatten, List.map_map, Function.comp_def]
+  omega
+
+/-- every kind of pattern is copied exactly, the `custom` one with ANY kind string (empty, "*", lower case) and
+    any path; `body`/`response_body` are copied whatever they contain ("*", "", a field path) -/
+theorem C05_binding_custom_exact (k p b r : Bytes) :
+    parseBinding { pattern := .custom k p, body := b, responseBody := r } =
+      { httpMethod := k, pattern := p, requestBodyPath := b, responseBodyPath := r } ∧
+    parseBinding { pattern := .unset, body := b, responseBody := r } =
+      { httpMethod := [], pattern := [], requestBodyPath := b, responseBodyPath := r } := by
+  simp [parseBinding]
+
+namespace GB.C05.ExtWitness
+/-- a.proto imports b.proto, b.proto `import public` c.proto, a.A/Do returns c.M -/
+def meth : DMethod :=
+  { name := [68], input := [97, 46, 81], output := [99, 46, 77], clientStreaming := false, serverStreaming := false, http := none }
+def fa : DFile :=
+  { name := [97], deps := [[98]], messages := [[97, 46, 81]], services := [{ name := [97, 46, 65], methods := [meth] }] }
+def fb : DFile := { name := [98], deps := [[99]], messages := [], services := [] }
+def fc : DFile := { name := [99], deps := [], messages := [[99, 46, 77]], services := [] }
+def x (f : DFile) (pkg : Name) (pub weak : List Nat) : XFile :=
+  { file := f, pkg := pkg, syn := sProto3, edition := 0, pub := pub, weak := weak, required := [] }
+end GB.C05.ExtWitness
+
+open GB.C05.ExtWitness in
+/-- `import public` decides acceptance: the type is visible only through the public import of a direct import.
+    With the flag the set is accepted and a.A is delivered with its method; without it (and in the base model,
+    which knows direct imports only) it is rejected; a file's OWN public flag gives it nothing. -/
+theorem C05_public_import_witness :
+    (parseFileDescriptorsX [x fa [97] [] [], x fb [98] [0] [], x fc [99] [] []] [[97, 46, 65]]).toOption.map
+        (fun t => t.services.map (fun s => s.methods.length)) = some [1] ∧
+    (newFilesX [x fa [97] [] [], x fb [98] [] [], x fc [99] [] []]).toOption = none ∧
+    (newFilesX [x fa [97] [0] [], x fb [98] [] [], x fc [99] [] []]).toOption = none ∧
+    (newFiles [fa, fb, fc]).toOption = none := by decide
+
+open GB.C05.ExtWitness in
+/-- weak imports: a weak import of a file that is in no answer is a placeholder (accepted); the same import
+    not marked weak is an error; a symbol equal to another file's package (or a prefix of it) is an error;
+    an import listed twice is an error; an unused import is fine. -/
+theorem C05_weak_pkg_witness :
+    (newFilesX [x { fc with deps := [[122]] } [99] [] [0]]).toOption.isSome = true ∧
+    (newFilesX [x { fc with deps := [[122]] } [99] [] []]).toOption = none ∧
+    (newFilesX [x fc [99] [] [], x { fb with deps := [] } [99, 46, 77, 46, 122] [] []]).toOption = none ∧
+    (newFilesX [x fc [99] [] [], x { fb with deps := [[99], [99]] } [98] [] []]).toOption = none ∧
+    (newFilesX [x fc [99] [] [], x fb [98] [] []]).toOption.isSome = true := by decide
